@@ -33,6 +33,15 @@ type World struct {
 
 	// PassiveDownPrefix: every file op whose path has this prefix fails with EIO.
 	PassiveDownPrefix string
+	// PassiveMode refines it: "" = every op fails; "count" = count the ops only; "at" = the op
+	// number PassiveFailAt fails (and all later ones when PassiveStay is set).
+	PassiveMode       string
+	PassiveFailAt     int
+	PassiveStay       bool
+	PassiveOps        int
+	PassiveFired      int
+	PassiveFailedPath string
+	PassiveFailedOp   string
 	OnBlockWrite      func(name string, offset int64, block []byte, ft *FaultSpec)
 	OnLock            func(op string, keys []*sop.LockKey, names []string, ok bool, err error)
 
@@ -192,8 +201,37 @@ func (w *World) Close(keepDir bool) {
 	}
 }
 
+// passiveDownRead: reads only fail while the passive drive is wholly down.
+func (w *World) passiveDownRead(path string) bool {
+	return w.PassiveDownPrefix != "" && strings.HasPrefix(path, w.PassiveDownPrefix) && (w.PassiveMode == "" || (w.PassiveMode == "at" && w.PassiveStay && w.PassiveFired > 0))
+}
+
+func (w *World) passiveDownOp(kind, path string) bool {
+	if w.passiveDown(path) {
+		w.PassiveFailedOp = kind
+		return true
+	}
+	return false
+}
+
 func (w *World) passiveDown(path string) bool {
-	return w.PassiveDownPrefix != "" && strings.HasPrefix(path, w.PassiveDownPrefix)
+	if w.PassiveDownPrefix == "" || !strings.HasPrefix(path, w.PassiveDownPrefix) {
+		return false
+	}
+	switch w.PassiveMode {
+	case "count":
+		w.PassiveOps++
+		return false
+	case "at":
+		w.PassiveOps++
+		if w.PassiveOps == w.PassiveFailAt || (w.PassiveStay && w.PassiveOps > w.PassiveFailAt) {
+			w.PassiveFired++
+			w.PassiveFailedPath = path
+			return true
+		}
+		return false
+	}
+	return true
 }
 
 // InnerL2 exposes the real cache behind the proxy (for forced evictions by the harness).
